@@ -12,27 +12,77 @@ TRUSTED_BASE = [
     "pglogrepl/pgx framing, PostgreSQL itself",
 ]
 
+# components whose real code keeps package-level state (marshaller pools): one case at a time per
+# process; the check script shards them over processes instead of goroutines
+SERIAL = {"pipeline": 8, "marshal": 4}
+
 PROPS = {
     "C01": {
         "modules": ["PgBifrost.Props.C01"],
-        "components": ["ledger"],
-        "partial": "full statement false on the unchanged tree (finding F1): theorems are proved under NoStale; "
-                   "system-level composition (batcher -> workers -> ledger -> client) is covered by correspondence "
-                   "and monitors, not yet by one composed theorem",
+        "components": ["ledger", "batcher", "pipeline"],
+        "required_theorems": ["PgBifrost.Props.C01.ledger_emit_safe_partial", "PgBifrost.Props.C01.ledger_never_panics_partial",
+                              "PgBifrost.Props.C01.ledger_emit_unsafe_witness"],
+        "partial": "full statement false on the unchanged tree (finding F1): the ledger theorem is proved under NoStale, the "
+                   "witness theorem proves the full one false. Layers: L1 ledger (theorem), L2 batcher contract (C04 "
+                   "seen_before_dispatch*, seen_log_exact, txns_global_accounting), L3 workers (C11-C14), L4 client (C03); the "
+                   "composed system statement is decided by the pipeline harness (real stages assembled, Lean-evaluated monitors "
+                   "Spec.Pipeline.safe + Spec.Ledger.checkContract on the observed ledger trace), not by one composed theorem",
         "assumptions": ["ledger trace contract E1-E3 (DESIGN §6/C01) and NoStale (E4) as hypotheses of the ledger theorem"],
     },
     "C02": {
         "modules": ["PgBifrost.Props.C02"],
-        "components": ["ledger"],
-        "partial": "proved under NoStale (finding F1 makes the full statement false); client error-recovery and the "
-                   "batcher's side of the contract are separate obligations",
+        "components": ["ledger", "client", "batcher", "pipeline"],
+        "required_theorems": ["PgBifrost.Props.C02.ledger_drains_partial", "PgBifrost.Props.C02.recovery_commit_closes_open_delivery"],
+        "partial": "ledger layer proved under NoStale (finding F1 makes the full statement false). Client error recovery: "
+                   "recovery_commit_closes_open_delivery is about the model of the repaired client (fix: commit for F2); "
+                   "system-level quiescence is decided by the pipeline harness monitors (caughtUp, ledger empty), not one theorem",
         "assumptions": ["ledger trace contract E1-E3 and NoStale (E4); every committed delivery completely written; "
-                        "every delivery without a seen was superseded by a later key of its transaction"],
+                        "every delivery without a seen was superseded by a later key of its transaction",
+                        "the session's starting position (first keepalive) is > 0"],
+    },
+    "C03": {
+        "modules": ["PgBifrost.Props.C03"],
+        "components": ["client"],
+        "required_theorems": ["PgBifrost.Props.C03.acks_monotone", "PgBifrost.Props.C03.acks_sourced",
+                              "PgBifrost.Props.C03.ack_is_running_max", "PgBifrost.Props.C03.restart_lsn_exact",
+                              "PgBifrost.Props.C03.client_write_sites_as_modelled"],
+        "assumptions": ["GetConn*/SendStandbyStatus/IdentifySystem do not fail, the progress channel is not closed, "
+                        "TerminateCtx is not cancelled (not modelled)",
+                        "conn.Manager is modelled (no live connection => dial + START_REPLICATION at the argument); "
+                        "exercised through a fake in the quick tier",
+                        "'last COMMIT received' is the largest COMMIT position received (equal under the PG-stream grammar)"],
+    },
+    "C04": {
+        "modules": ["PgBifrost.Props.C04"],
+        "components": ["batcher", "batch", "filter", "partitioner", "marshal", "pipeline"],
+        "required_theorems": ["PgBifrost.Props.C04.batcher_partition_faithful", "PgBifrost.Props.C04.batch_single_key",
+                              "PgBifrost.Props.C04.batch_txns_exact", "PgBifrost.Props.C04.txns_global_accounting",
+                              "PgBifrost.Props.C04.batcher_never_dead"],
+        "partial": "the batcher/batches part is one unbounded theorem; the composition with filter, partitioner and marshaller "
+                   "(each tied by its own correspondence; C08, C06, C10 theorems) and with the workers is decided by the pipeline "
+                   "harness monitor Spec.Pipeline.exactlyOnce on the assembled real stages, not by one composed theorem",
+        "assumptions": ["batch kind laws (proved for generic, Kinesis, Kafka); Kinesis: record + key fits an empty batch (|key| <= 4 MiB)"],
+    },
+    "C05": {
+        "modules": ["PgBifrost.Props.C05"],
+        "components": ["batcher", "crc", "pipeline"],
+        "required_theorems": ["PgBifrost.Props.C05.in_batch_order", "PgBifrost.Props.C05.partition_routing_fixed",
+                              "PgBifrost.Props.C05.per_key_submission_order", "PgBifrost.Props.C05.single_worker_total_order"],
+        "partial": "proved up to the worker's input channel (order of batches handed to worker w); that a worker is sequential and its "
+                   "channel FIFO is the Go runtime (modelled); submission order at the sink is observed by the pipeline monitor perKeyOrder",
     },
     "C06": {
         "modules": ["PgBifrost.Props.C06"],
         "components": ["partitioner", "crc", "batcher"],
         "assumptions": ["identifiers are byte strings; bucket count >= 1 (validated by main.go)"],
+    },
+    "C07": {
+        "modules": ["PgBifrost.Props.C07"],
+        "components": ["client"],
+        "required_theorems": ["PgBifrost.Props.C07.stamp_attribution", "PgBifrost.Props.C07.keys_unique",
+                              "PgBifrost.Props.C07.one_commit_per_key", "PgBifrost.Props.C07.begin_without_commit"],
+        "assumptions": ["PG-stream grammar (DESIGN §3) as decidable hypothesis pgGrammar on the history",
+                        "clock readings strictly increasing across BEGINs of the same transaction id; ids contain no '-'"],
     },
     "C08": {
         "modules": ["PgBifrost.Props.C08"],
@@ -40,5 +90,107 @@ PROPS = {
         "required_theorems": ["PgBifrost.Props.C08.filter_iff", "PgBifrost.Props.C08.cli_filter_correct"],
         "assumptions": ["regexp matching is Go's regexp (parameter of the model)", "at most one of the four options is given",
                         "a TRUNCATE of several tables is filtered on the relation text as test_decoding prints it (the whole list)"],
+    },
+    "C09": {
+        "modules": ["PgBifrost.Props.C09"],
+        "components": ["parser"],
+        "required_theorems": ["PgBifrost.Props.C09.parse_total", "PgBifrost.Props.C09.parse_render_partial"],
+        "partial": "round trip proved for every well-formed change whose printed tuples are non-empty (finding empty_tuple: "
+                   "relations without columns make the decoder fail; recorded)",
+        "assumptions": ["TestDecoding.render is the output grammar of contrib/test_decoding with default options "
+                        "(include-xids on, include-timestamp off); WF: bare values without NUL/space/quote, bit strings "
+                        "of 0/1, built-in type spellings without ] [ \", distinct printed column names, no empty printed tuple",
+                        "strings.Fields is modelled on bytes (white-space byte patterns; exact for arbitrary bytes, see Model/Parser.lean)"],
+    },
+    "C10": {
+        "modules": ["PgBifrost.Props.C10"],
+        "components": ["marshal"],
+        "required_theorems": ["PgBifrost.Props.C10.marshal_decision_table_partial", "PgBifrost.Props.C10.marshal_quoted_toast_witness",
+                              "PgBifrost.Props.C10.marshal_fields_equal", "PgBifrost.Props.C10.lsn_format_roundtrip",
+                              "PgBifrost.Props.C10.marshal_history_independent", "PgBifrost.Props.C10.marshal_pool_independent"],
+        "partial": "full decision table false on the unchanged tree (finding F5, quoted 'unchanged-toast-datum' text; pinned by the "
+                   "repository's own tests, recorded): proved for changes without such a literal, witness theorem for the rest; history "
+                   "independence of the CODE rests on marshal_pool_independent (pool-level model) plus the correspondence (sequences "
+                   "through one real Marshaller + shuffled re-run)",
+        "assumptions": ["goccy/go-json byte encoding trusted (outputs parsed back with encoding/json, json.Valid checked)",
+                        "RFC3339 rendering of the server time is Go's time package (input of the model)",
+                        "column values/names are valid UTF-8", "one marshaller per process (package-level pools are not locked)"],
+    },
+    "C11": {
+        "modules": ["PgBifrost.Props.C11"],
+        "components": ["kinesis"],
+        "required_theorems": ["PgBifrost.Props.C11.kinesis_written_all_accepted", "PgBifrost.Props.C11.kinesis_retry_exact",
+                              "PgBifrost.Props.C11.kinesis_no_report_on_giveup", "PgBifrost.Props.C11.compact_eq_filter"],
+        "assumptions": ["AwsContract: every PutRecords answer has one result entry per request entry and FailedRecordCount = "
+                        "number of entries with an error code (hypothesis of kinesis_written_all_accepted only; "
+                        "kinesis_written_needs_contract_witness shows it is needed)",
+                        "backoff.Retry with WithMaxRetries(_, n) allows n+1 calls (modelled, compared by the harness)"],
+    },
+    "C12": {
+        "modules": ["PgBifrost.Props.C12"],
+        "components": ["s3"],
+        "required_theorems": ["PgBifrost.Props.C12.s3_key_format", "PgBifrost.Props.C12.s3_object_key_injective",
+                              "PgBifrost.Props.C12.s3_body_lines", "PgBifrost.Props.C12.s3_retry_from_zero",
+                              "PgBifrost.Props.C12.s3_no_report_on_giveup"],
+        "assumptions": ["bytes.Buffer.Reset / pgzip.Writer.Reset leave an empty stream (ResetEmpties; exercised by the correspondence "
+                        "with reuse limits 0/1/2/5)", "gzip is an input: a sink that reads the whole body from offset 0 decodes the plain text",
+                        "clock strings non-empty, no '/', full = 14 characters"],
+    },
+    "C13": {
+        "modules": ["PgBifrost.Props.C13"],
+        "components": ["rabbit"],
+        "assumptions": ["confirmations arrive in tag order per channel; a close drops the unconsumed ones",
+                        "goroutine interleaving of closeHandler and worker at the granularity of the worker's log lines / Publish calls"],
+        "timeout": 3000,
+    },
+    "C14": {
+        "modules": ["PgBifrost.Props.C14"],
+        "components": ["kafka", "batch"],
+        "required_theorems": ["PgBifrost.Props.C14.kafka_written_iff_all_ok", "PgBifrost.Props.C14.kafka_failstop",
+                              "PgBifrost.Props.C14.kafka_key_by_method", "PgBifrost.Props.C14.kafka_toobig_counted",
+                              "PgBifrost.Props.C14.kafka_methods_as_documented"],
+        "assumptions": ["sarama ProducerMessage.ByteSize(2) is an input measured on the real message",
+                        "the uuid of a `batch`-method batch is an opaque per-batch value"],
+    },
+    "C15": {
+        "modules": ["PgBifrost.Props.C15"],
+        "components": ["batch", "batcher"],
+        "required_theorems": ["PgBifrost.Props.C15.kinesis_batch_limits", "PgBifrost.Props.C15.kinesis_dispatched_limits",
+                              "PgBifrost.Props.C15.generic_dispatched_limits", "PgBifrost.Props.C15.kafka_dispatched_limits",
+                              "PgBifrost.Props.C15.cant_fit_not_lost", "PgBifrost.Props.C15.too_big_counted",
+                              "PgBifrost.Props.C15.limits_are_the_documented_ones", "PgBifrost.Props.C15.reaction_per_error_class"],
+        "assumptions": ["Kinesis record + partition key fits an empty batch (|key| <= 4 MiB)"],
+    },
+    "C16": {
+        "modules": ["PgBifrost.Props.C16"],
+        "components": ["batcher"],
+        "required_theorems": ["PgBifrost.Props.C16.tick_flushes_due", "PgBifrost.Props.C16.tick_pressure",
+                              "PgBifrost.Props.C16.tick_pressure_order"],
+        "partial": "the tick DECISION is proved for every open set, clock reading and Go map/heap order (validTick); that a tick is "
+                   "actually handled within one tick period of becoming due is Go's select/ticker (ticker competes with input in one "
+                   "select; not exhibited by the model) - the harness fires the real tick handler at chosen points and compares the flush set",
+    },
+    "C18": {
+        "modules": ["PgBifrost.Props.C18"],
+        "components": ["client"],
+        "required_theorems": ["PgBifrost.Props.C18.keepalive_reply_before_next_read",
+                              "PgBifrost.Props.C18.status_gap_bounded"],
+        "partial": "durations are proved in a logical-time timer sub-model (firing visible when due, handling takes no "
+                   "time, ReceiveMessage returns within T); real timer/scheduler latency is measured by the harness "
+                   "(max gap in the distribution), not proved. The session's very first keepalive is not answered even "
+                   "if it requests a reply (client.go:243-270); the property is stated for the loop.",
+        "assumptions": ["ReceiveMessage returns within its context timeout T"],
+    },
+    "C19": {
+        "modules": ["PgBifrost.Props.C19"],
+        "components": ["aggregator"],
+        "required_theorems": ["PgBifrost.Props.C19.agg_conservation", "PgBifrost.Props.C19.agg_exactly_one_window",
+                              "PgBifrost.Props.C19.agg_hist_minmaxavg", "PgBifrost.Props.C19.agg_key_inj_table",
+                              "PgBifrost.Props.C19.agg_key_collision_witness"],
+        "assumptions": ["KeyInjOn: the separator-less aggregate key is injective on the identities used (proved for the generated "
+                        "table of every statistic pg-bifrost emits; arbitrary colliding identities are outside the property)",
+                        "int64 arithmetic modelled by Int (no wrap-around); int64(float64(sum)/float64(n)) = trunc(sum/n), exact for |sum| < 2^53",
+                        "statistic types are count/histogram (anything else panics in update/toStats; emitted_types_known)",
+                        "aggregateTimeNano > 0"],
     },
 }
